@@ -43,6 +43,12 @@ def graph? (args : List Sexp) : Option (List (List Nat) × List Nat) :=
     let tbl ← rows.mapM natList?
     let it ← natList? items
     pure (tbl, it)
+  -- history case `(adj) (items) (adj0)`: the orderers keep no state, so the earlier wiring `adj0` of
+  -- the same cells does not matter to the model
+  | [.list rows, items, .list _] => do
+    let tbl ← rows.mapM natList?
+    let it ← natList? items
+    pure (tbl, it)
   | _ => none
 
 /-- all five orderers are the same DFS; `dangling` = references outside the table are errors
@@ -164,6 +170,7 @@ def dispatch (op : String) (args : List Sexp) : String :=
   | "tf.apply" => opTfApply args
   | "tf.general" => "unsupported"
   | "tf.gchain" => "unsupported"
+  | "raw.gflatten" => "unsupported"
   | "c20.abs2gds" => "unsupported"
   | "c20.abs2lef" => "unsupported"
   | "c20.lefrt" => "unsupported"
@@ -171,6 +178,7 @@ def dispatch (op : String) (args : List Sexp) : String :=
   | "serde.gds" => "unsupported"
   | "serde.gdsbytes" => "unsupported"
   | "serde.lef" => "unsupported"
+  | "serde.leflib" => "unsupported"
   | "serde.lefspecial" => "unsupported"
   | "raw.flatten" => opFlatten args
   | "geom.contains" => opContains args
